@@ -253,11 +253,23 @@ func runSets(r *driver.Run) {
 			sz := 40 + t.Draw(260)
 			xs := make([]int, sz)
 			base := e.drawInt()
+			stepMax := 3
 			if e.extreme {
-				base = -150
+				switch t.Draw(3) {
+				case 0:
+					base = -150
+				case 1:
+					base, stepMax = 1<<63-1-(sz-1), 1 // a run of consecutive ints ending exactly at MaxInt
+				default:
+					base, stepMax = -1<<63, 1 // a run starting exactly at MinInt
+				}
 			}
 			for i := range xs {
-				xs[i] = base + i*(1+t.Draw(3)) // clustered, so that small sets intersect them
+				if i == 0 {
+					xs[i] = base
+				} else {
+					xs[i] = xs[i-1] + 1 + t.Draw(stepMax) // clustered, so that small sets intersect them
+				}
 			}
 			e.put(modelOf(xs))
 		}
@@ -322,6 +334,12 @@ func runSets(r *driver.Run) {
 			}
 		case 2, 3: // Add
 			xs := e.drawList(5)
+			if t.Chance(1, 24) {
+				xs = e.drawList(200) // a long, unsorted argument list with repeats
+				if len(xs) > 64 {
+					r.Probe("add-with-more-than-64-arguments")
+				}
+			}
 			if t.Chance(1, 3) && len(a.m) > 0 { // elements already present, possibly repeated
 				p := a.m[t.Draw(len(a.m))]
 				xs = append(xs, p)
@@ -515,9 +533,19 @@ func runSort(r *driver.Run) {
 	if shape == 8 {
 		// quicksort killer: forces the depth limit, i.e. the heapsort fallback
 		xs = gutil.QuicksortKiller(n)
-		if t.Chance(1, 2) {
+		switch t.Draw(3) {
+		case 1:
 			for i := range xs { // same order type, with duplicates
 				xs[i] /= 2
+			}
+		case 2:
+			// same order type, spread over the whole int range (differences overflow)
+			if n > 0 {
+				step := uint64(1<<63-1)/uint64(n)*2 + 1
+				for i := range xs {
+					xs[i] = int(uint64(xs[i])*step) + (-1 << 63)
+				}
+				r.Probe("sort-killer-with-extreme-values")
 			}
 		}
 		r.Probe("sort-quicksort-killer-input")
